@@ -258,6 +258,12 @@ F8imports ==
         irefs \in {<<>>} \cup {<<r>> : r \in RefsTo(MainSegs, "b")} \cup
                   {<<r1, r2>> : r1 \in {Ref(MainSegs, <<"b">>, FALSE, ""), Ref(MainSegs, <<"..", "d", "b">>, FALSE, ".wxml")},
                                 r2 \in {Ref(MainSegs, <<"c">>, FALSE, ""), Ref(MainSegs, <<"d", "c">>, TRUE, "")}} \cup
+                  (* the same file imported again, under another spelling, after a different file: the LAST import wins *)
+                  {<<Ref(MainSegs, <<"b">>, FALSE, ""), Ref(MainSegs, <<"c">>, FALSE, ""), r3>> :
+                       r3 \in {Ref(MainSegs, <<".", "b">>, FALSE, ".wxml"), Ref(MainSegs, <<"d", "b">>, TRUE, ""), Ref(MainSegs, <<"b">>, FALSE, ""),
+                               Ref(MainSegs, <<"x", "..", "c">>, FALSE, "")}} \cup
+                  {<<Ref(MainSegs, <<"c">>, FALSE, ".wxml"), Ref(MainSegs, <<"b">>, FALSE, ""), Ref(MainSegs, <<"..", "d", "c">>, FALSE, "")>>,
+                   <<Ref(MainSegs, <<"b">>, FALSE, ""), Ref(MainSegs, <<".", "b">>, FALSE, "")>>} \cup
                   {<<Ref(MainSegs, <<"c">>, FALSE, ""), Ref(MainSegs, <<"b">>, FALSE, "")>>,
                    <<Ref(MainSegs, <<"missing">>, FALSE, ""), Ref(MainSegs, <<"b">>, FALSE, "")>>} }
 F8includes ==
